@@ -3,4 +3,4 @@ META = dict(trusted_base=COMMON_TB, assumptions=COMMON_ASSUME)
 
 
 def items(tier):
-    return contract_items("C01")
+    return contract_items("C01", tier)
